@@ -86,8 +86,51 @@ def streams(rng, tier):
     spec = ["encspec " + o[4:] for o in ops]
     st = Stream("encoder-methods", "hcore", ops, spec_ops=spec, judge=judge, rule=RULE)
     st.shrinkable = False
+    # ArrayIter / MapIter with exact, loose, over-estimating and open-ended size hints: oracle = one well-formed item holding exactly the items written
+    it_ops = []
+    for kind in ("array", "map"):
+        for hint in ("exact", "loose", "even", "open"):
+            for n in (0, 1, 2, 5, 23, 24, 25, 255, 256, 300):
+                vals = [rng.choice([0, 1, 23, 24, 255, 256, 65535, 65536, 2**32 - 1, rng.getrandbits(32)]) for _ in range(n)]
+                it_ops.append(f"enciter {kind} {hint} {','.join(map(str, vals)) if vals else '-'}")
+            for _ in range(60):
+                vals = [rng.getrandbits(rng.randint(1, 32)) for _ in range(rng.randint(0, 40))]
+                it_ops.append(f"enciter {kind} {hint} {','.join(map(str, vals)) if vals else '-'}")
+    def judge_iter(op, impl, model, spec):
+        from verifkit import typegen
+        w = op.split(" ")
+        vals = [] if w[3] == "-" else [int(x) for x in w[3].split(",")]
+        idx = list(range(len(vals)))
+        if w[2] == "even":
+            idx = [i for i in idx if vals[i] % 2 == 0]
+        items = [gen.head(0, vals[i]) for i in idx] if w[1] == "array" else [gen.head(0, i) + gen.head(0, vals[i]) for i in idx]
+        body = b"".join(items)
+        maj = 4 if w[1] == "array" else 5
+        ok = {(gen.head(maj, len(items)) + body).hex(), (bytes([maj * 32 + 31]) + body + b"\xff").hex()}
+        if impl not in ok:
+            return "violation"
+        return "ok" if impl == model else "corr"
+    sti = Stream("array-map-iter", "hcore", it_ops, judge=judge_iter,
+                 rule="encode::ArrayIter / MapIter over iterators with exact / loose / over-estimating / open-ended size hints: one well-formed array or map holding exactly the items written")
+    sti.shrinkable = False
+    # built-in Encode impls: one well-formed item (bare Tag is the recorded exception K9)
+    from verifkit import typegen
+    tag_ops = [f"tenc Tag {n}" for n in (0, 1, 23, 24, 255, 256, 65536, 2**32, 2**64 - 1)]
+    def judge_tag(op, impl, model, spec):
+        hx = impl.split(" ")[0]
+        try:
+            b = bytes.fromhex(hx)
+        except ValueError:
+            return "violation"
+        root = typegen.walk(b)
+        wellformed = root is not None and root.end == len(b)
+        if not wellformed and impl == model:
+            return ("known", "K9")
+        return "ok" if wellformed and impl == model else "violation"
+    stt = Stream("bare-tag", "hcore", tag_ops, model_ops=[o.replace("tenc Tag", "tenc tag") for o in tag_ops], judge=judge_tag, rule="to_vec(Tag::new(n)): a tag head alone is not a data item (known finding K9)")
+    stt.shrinkable = False
     # determinism: the same ops a second time must give the same bytes
-    return [st, Stream("encoder-methods-again", "hcore", ops[::7], rule="every 7th op of the first stream, run again in a fresh process")]
+    return [st, sti, stt, Stream("encoder-methods-again", "hcore", ops[::7], rule="every 7th op of the first stream, run again in a fresh process")]
 
 
 def replay_streams(rp):
